@@ -2,8 +2,9 @@
 //
 // Rewrites, into <outdir>/src/…, every non-test Go file of <repo>/models, <repo>/websocket and <repo>/modules/*
 // that contains a statement `x.Lock()` or `x.RLock()` (a call with no argument used as a statement), replacing
-// that statement by `verifsched.Acquire(x.TryLock, "file:line")` / `verifsched.RAcquire(x.TryRLock, "file:line")`.
-// Unlock / RUnlock are left alone. The replacement is textual at the positions given by go/ast, so that
+// that statement by `verifsched.Acquire(x.TryLock, "file:line", &x)` / `verifsched.RAcquire(x.TryRLock, "file:line", &x)`,
+// and every `x.Unlock()` / `x.RUnlock()` (statement or deferred) by `verifsched.Release(x.Unlock, &x)`: the scheduler
+// then knows what every goroutine holds and records the lock-order pairs it observes (C09's cross-validation). The replacement is textual at the positions given by go/ast, so that
 // every other byte - and every line number - of the file is preserved; the import is added on the line of the
 // package clause. Writes <outdir>/overlay-extra.json ({"<repo>/<file>": "<outdir>/src/<file>", …,
 // "<repo>/verifsched/sched.go": "<sched.go>"}) and <outdir>/sites.json (site -> enclosing function, lock
@@ -109,28 +110,43 @@ func main() {
 				}
 				fn := funcName(fd)
 				ast.Inspect(fd.Body, func(nd ast.Node) bool {
-					es, ok := nd.(*ast.ExprStmt)
-					if !ok {
+					var call *ast.CallExpr
+					deferred := false
+					switch st := nd.(type) {
+					case *ast.ExprStmt:
+						call, _ = st.X.(*ast.CallExpr)
+					case *ast.DeferStmt:
+						call, deferred = st.Call, true
+					default:
 						return true
 					}
-					call, ok := es.X.(*ast.CallExpr)
-					if !ok || len(call.Args) != 0 {
+					if call == nil || len(call.Args) != 0 {
 						return true
 					}
 					sel, ok := call.Fun.(*ast.SelectorExpr)
-					if !ok || (sel.Sel.Name != "Lock" && sel.Sel.Name != "RLock") {
+					if !ok {
 						return true
 					}
 					x := string(src[fset.Position(sel.X.Pos()).Offset:fset.Position(sel.X.End()).Offset])
 					pos := fset.Position(call.Pos())
 					st := fmt.Sprintf("%s:%d", rel, pos.Line)
-					fun, try, kind := "Acquire", "TryLock", "W"
-					if sel.Sel.Name == "RLock" {
-						fun, try, kind = "RAcquire", "TryRLock", "R"
+					switch sel.Sel.Name {
+					case "Lock", "RLock":
+						if deferred {
+							return true
+						}
+						fun, try, kind := "Acquire", "TryLock", "W"
+						if sel.Sel.Name == "RLock" {
+							fun, try, kind = "RAcquire", "TryRLock", "R"
+						}
+						edits = append(edits, edit{pos.Offset, fset.Position(call.End()).Offset,
+							fmt.Sprintf("verifsched.%s(%s.%s, %q, &%s)", fun, x, try, st, x)})
+						sites = append(sites, site{st, fn, x, kind})
+					case "Unlock", "RUnlock":
+						// the release is observed too (plain or deferred), so that the scheduler knows what a goroutine holds
+						edits = append(edits, edit{pos.Offset, fset.Position(call.End()).Offset,
+							fmt.Sprintf("verifsched.Release(%s.%s, &%s)", x, sel.Sel.Name, x)})
 					}
-					edits = append(edits, edit{pos.Offset, fset.Position(call.End()).Offset,
-						fmt.Sprintf("verifsched.%s(%s.%s, %q)", fun, x, try, st)})
-					sites = append(sites, site{st, fn, x, kind})
 					return true
 				})
 			}
